@@ -223,6 +223,30 @@ CHECKS = {
 NOT_YET = "check under construction in this session; not claimed until its quick command is registered here"
 
 
+# dimensions added in the rounds 5-7 of seeded changes (appended to the level texts)
+ADDENDA = {
+    "C01": " Lengths also land on multiples of common block sizes; one description object for a dependency named twice (anchors / shared dictionaries) with differing algorithms.",
+    "C03": " Ready-made encryption-info blobs, partial severing, an earlier longer description at the parse output path and project files named like the description's texts beside it.",
+    "C04": " An earlier longer file at the output path, DER keys ending in white-space bytes, key rotation within one process, a key-named decoy in the CLI working directory.",
+    "C05": " The description may be loaded before the artifacts are rebuilt (two-step library use); references through '..' after a symbolic link to a directory.",
+    "C06": " Inputs through named pipes and inputs lying in the output directory under artifact names, two installations of the KMS script in turn, images of 8 MiB and more, plaintexts that look like Intel HEX / CBOR.",
+    "C07": " Base address 0, CR LF build configurations, an earlier run at another address into the same directory, envelopes with twelve authentication blocks.",
+    "C08": " Also: edits of loaded objects followed by a fresh parse (edit isolation), non-shortest encodings of every code, null values, two command names in one mapping.",
+    "C09": " DER-only keys in the policy table, an earlier longer file at the output path, one configuration dictionary used for two recursive runs, near-miss names for absent dependencies.",
+    "C10": " An earlier run in the same directory (payload paths rewritten, longer output in place), merge inputs whose names contain pattern characters beside decoy siblings.",
+    "C11": " Non-ASCII names; outputs of an earlier identical run extended afterwards, and unrelated longer outputs, at the output paths.",
+    "C12": " Merge areas at address 0, input files holding two blocks, UUID-like names, names and input files with special first characters on the command line.",
+    "C13": " Both member orders of the long UUID form, CR LF configurations, reserved MPI sizes below 48.",
+    "C14": " CLI processes under optimised byte code, six parallel processes with equal firmware names and one TMPDIR, one KMS session shared by eight threads, a keys directory copied after first use.",
+    "C15": " One KeyGenerator / KeyConverter object used several times.",
+    "C16": " Input names with pattern characters, the ncs/build.py update route with image configurations, relative names after a directory change, number spellings on the command line.",
+    "C17": " Number forms other than integers (decimal fractions / big floats with enormous exponents) where integers are expected and inside byte strings the parser opens; scaling in the number of distinct components; text-pattern families.",
+    "C18": " Rewrites that keep size and time stamps, key-named decoys in the other working directories, sign actions on a signed envelope and overlapping MPI merges in the pool; preparation steps run in dependency order.",
+    "C19": " Free-text image names, children carrying a foreign authentication block, the description stored beside older children, sequence numbers up to 2^64-1.",
+    "C20": " Eight VERSION-file layouts and hand-written unquoted versions in description files.",
+}
+
+
 def main():
     props = [json.loads(l) for l in open(os.path.join(VERIF, "properties.jsonl"))]
     checks = []
@@ -231,6 +255,7 @@ def main():
         if cid not in CHECKS:
             continue
         level, tech, text, note, ref = CHECKS[cid]
+        text = text + ADDENDA.get(cid, "")
         base = f"cd /verif && SUIT_GENERATOR_VERIF=1 /venv/bin/python -m vf.run {cid}"
         checks.append(
             dict(
